@@ -25,6 +25,8 @@ type parkedTask struct {
 	task  string
 	label string
 	ch    chan struct{}
+	// ready, when set, says whether the task may be scheduled (blocking wait on a harness condition).
+	ready func() bool
 }
 
 // Violation describes a failed oracle.
@@ -119,6 +121,37 @@ func (k *Kernel) Yield(label string) {
 	<-p.ch
 }
 
+// WaitUntil parks the calling task until cond holds; the scheduler does not consider the task
+// enabled before that (a blocking wait on a harness-visible condition, e.g. "my operation is published").
+func (k *Kernel) WaitUntil(label string, cond func() bool) {
+	if k.inline > 0 {
+		return
+	}
+
+	k.mu.Lock()
+	p := &parkedTask{task: k.cur, label: label, ch: make(chan struct{}), ready: cond}
+	k.parked = append(k.parked, p)
+	k.mu.Unlock()
+
+	<-p.ch
+}
+
+func (k *Kernel) enabled() []*parkedTask {
+	k.mu.Lock()
+	all := append([]*parkedTask(nil), k.parked...)
+	k.mu.Unlock()
+
+	out := all[:0:0]
+
+	for _, p := range all {
+		if p.ready == nil || k.draining.Load() || p.ready() {
+			out = append(out, p)
+		}
+	}
+
+	return out
+}
+
 // Draw draws from the tape on behalf of the running task.
 func (k *Kernel) Draw(n int, label string) int {
 	if k.IsInline() {
@@ -166,6 +199,9 @@ func (k *Kernel) Go(name string, f func()) {
 
 	k.cur = prev
 }
+
+// Settle waits until every other goroutine is blocked (used after starting a repo-owned goroutine).
+func (k *Kernel) Settle() { synctest.Wait() }
 
 // Parked returns the identities of parked tasks (sorted copy) – used by worlds to know whether
 // e.g. the writer loop is idle.
@@ -226,18 +262,13 @@ func (k *Kernel) Quiesce(max int, check func()) bool {
 			return false
 		}
 
-		k.mu.Lock()
-		if len(k.parked) == 0 {
-			k.mu.Unlock()
-
+		en := k.enabled()
+		if len(en) == 0 {
 			return true
 		}
 
-		p := k.parked[0]
-		k.mu.Unlock()
-
 		k.Steps++
-		k.release(p)
+		k.release(en[0])
 	}
 
 	return false
@@ -278,10 +309,7 @@ func (k *Kernel) Run(max int, env func() []Action, check func()) {
 		}
 
 		acts := env()
-
-		k.mu.Lock()
-		parked := append([]*parkedTask(nil), k.parked...)
-		k.mu.Unlock()
+		parked := k.enabled()
 
 		n := len(parked) + len(acts)
 		if n == 0 {
